@@ -6,8 +6,14 @@ lists) can be held on the instance, on the class, or on a base class:
 
   style "table":  B(A(TableMDP(root)))   root = TabularMarkovDecisionProcess | MarkovDecisionProcess
                   methods read self._init/_acts/_trans/_rew/_abs ; discount_rate optionally on the
-                  instance, on B, on A ; _state_list/_action_list on the instance or on A
+                  instance, on B, on A ; _state_list/_action_list on the instance, on A, or inferred
   style "quick":  QuickTabularMDP / QuickMDP (discount_rate always set on the instance by __init__)
+
+Input representations (spec["labels"], spec["dist_as"], spec["actions_as"], spec["gamma_as_int"]):
+the JSON case speaks of state / action IDS 0..n-1; the msdm objects see LABELS (ints, strings with
+"" for id 0, tuples with () for id 0), distributions as DictDistribution or, where the row allows,
+DeterministicDistribution / UniformDistribution, action collections as lists or tuples, integral
+discounts as Python ints.  Everything reported back is decoded to ids.
 
 Every roll-out an option performs is recorded by wrapping the option policy's run_on, so the
 harness can replay the very simulations an outcome distribution was computed from.
@@ -18,14 +24,61 @@ from build import *
 
 
 # ---------------------------------------------------------------------------
-def table_funcs(T, actions_as="list"):
+class Labels:
+    def __init__(self, spec, n, nA):
+        spec = spec or {}
+        sk, ak = spec.get("state", "int"), spec.get("action", "int")
+        f = {"int": lambda i: i,
+             "str": lambda i: "" if i == 0 else "s%d" % i,
+             "tuple": lambda i: () if i == 0 else (i,)}
+        self.s = [f[sk](i) for i in range(n + 2)]          # a little beyond n: list overrides may name extra states
+        fa = {"int": lambda j: j, "str": lambda j: "" if j == 0 else "a%d" % j}
+        self.a = [fa[ak](j) for j in range(nA + 2)]
+        self.ds = {x: i for i, x in enumerate(self.s)}
+        self.da = {x: j for j, x in enumerate(self.a)}
+
+    def S(self, i): return self.s[i]
+    def A(self, j): return self.a[j]
+    def dS(self, x): return self.ds[x]
+    def dA(self, x): return self.da[x]
+
+
+LAB = None
+
+
+def set_labels(base_spec):
+    global LAB
+    T = base_spec["tables"]
+    LAB = Labels(base_spec.get("labels"), T["n"], T["nA"])
+
+
+def gamma_value(g, as_int):
+    x = fl(g)
+    if as_int and x == int(x):
+        return int(x)
+    return x
+
+
+def mk_dist(pairs, dist_as):
+    """pairs: [(label, float)] in row order"""
     from msdm.core.distributions import DictDistribution
+    from msdm.core.distributions.dictdistribution import DeterministicDistribution, UniformDistribution
+    if dist_as == "auto":
+        if len(pairs) == 1 and pairs[0][1] == 1.0:
+            return DeterministicDistribution(pairs[0][0])
+        if len(pairs) > 1 and all(p == 1.0 / len(pairs) for _, p in pairs):
+            return UniformDistribution([e for e, _ in pairs])
+    return DictDistribution(dict(pairs))
+
+
+def table_funcs(T, actions_as="list", dist_as="dict"):
     n, nA = T["n"], T["nA"]
-    trans = {(s, a): DictDistribution({ns: fl(p) for ns, p in T["trans"][s][a]}) for s in range(n) for a in range(nA)}
-    rew = {(s, a, ns): fl(T["rew"][s][a][ns]) for s in range(n) for a in range(nA) for ns in range(n)}
-    acts = [list(x) if actions_as == "list" else tuple(x) for x in T["actions"]]
-    absb = [bool(x) for x in T["absorbing"]]
-    init = DictDistribution({s: fl(p) for s, p in T["init"]})
+    S, A = LAB.S, LAB.A
+    trans = {(S(s), A(a)): mk_dist([(S(ns), fl(p)) for ns, p in T["trans"][s][a]], dist_as) for s in range(n) for a in range(nA)}
+    rew = {(S(s), A(a), S(ns)): fl(T["rew"][s][a][ns]) for s in range(n) for a in range(nA) for ns in range(n)}
+    acts = {S(s): ([A(a) for a in x] if actions_as == "list" else tuple(A(a) for a in x)) for s, x in enumerate(T["actions"])}
+    absb = {S(s): bool(x) for s, x in enumerate(T["absorbing"])}
+    init = mk_dist([(S(s), fl(p)) for s, p in T["init"]], dist_as)
     return {
         "initial_state_dist": lambda: init,
         "actions": lambda s: acts[s],
@@ -51,8 +104,13 @@ def touch_base(m, tabular):
             raise
 
 
+LAST_BASE = [None, None]
+
+
 def make_base(spec):
+    set_labels(spec)
     m = make_base_fresh(spec)
+    LAST_BASE[0], LAST_BASE[1] = m, spec
     if spec.get("touch"):
         touch_base(m, spec["tabular"])
     return m
@@ -61,18 +119,21 @@ def make_base(spec):
 def make_base_fresh(spec):
     from msdm.core.mdp import MarkovDecisionProcess, TabularMarkovDecisionProcess
     from msdm.core.mdp.quickmdp import QuickMDP, QuickTabularMDP
-    F = table_funcs(spec["tables"], spec.get("actions_as", "list"))
+    F = table_funcs(spec["tables"], spec.get("actions_as", "list"), spec.get("dist_as", "dict"))
     tabular = spec["tabular"]
     g = spec["gammas"]          # {"inst": str|None, "cls0": str|None, "cls1": str|None}
-    lists = spec.get("lists")   # {"where": "inst"|"cls", "state_list": [...], "action_list": [...]} (tabular only)
+    gi = spec.get("gamma_as_int", False)
+    lists = spec.get("lists")   # {"where": "inst"|"cls"|"inferred", "state_list": [...], "action_list": [...]} (tabular only)
+    sl = tuple(LAB.S(s) for s in lists["state_list"]) if lists else None
+    al = tuple(LAB.A(a) for a in lists["action_list"]) if lists else None
     if spec["style"] == "quick":
         cls = QuickTabularMDP if tabular else QuickMDP
         m = cls(next_state_dist=F["next_state_dist"], reward=F["reward"], actions=F["actions"],
                 initial_state_dist=F["initial_state_dist"], is_absorbing=F["is_absorbing"],
-                discount_rate=fl(g["inst"]))
-        if tabular:
-            m._state_list = tuple(lists["state_list"])
-            m._action_list = tuple(lists["action_list"])
+                discount_rate=gamma_value(g["inst"], gi))
+        if tabular and lists["where"] != "inferred":
+            m._state_list = sl
+            m._action_list = al
         return m
     root = TabularMarkovDecisionProcess if tabular else MarkovDecisionProcess
 
@@ -88,18 +149,18 @@ def make_base_fresh(spec):
     A = type("A", (TableMDP,), {})
     B = type("B", (A,), {})
     if g.get("cls1") is not None:
-        A.discount_rate = fl(g["cls1"])
+        A.discount_rate = gamma_value(g["cls1"], gi)
     if g.get("cls0") is not None:
-        B.discount_rate = fl(g["cls0"])
+        B.discount_rate = gamma_value(g["cls0"], gi)
     if tabular and lists["where"] == "cls":
-        A._state_list = tuple(lists["state_list"])
-        A._action_list = tuple(lists["action_list"])
+        A._state_list = sl
+        A._action_list = al
     m = B(F)
     if g.get("inst") is not None:
-        m.discount_rate = fl(g["inst"])
+        m.discount_rate = gamma_value(g["inst"], gi)
     if tabular and lists["where"] == "inst":
-        m._state_list = tuple(lists["state_list"])
-        m._action_list = tuple(lists["action_list"])
+        m._state_list = sl
+        m._action_list = al
     return m
 
 
@@ -113,17 +174,20 @@ def attempt(f):
 
 
 def dump(o, n, nA):
+    S, A, dS, dA = LAB.S, LAB.A, LAB.dS, LAB.dA
+
     def dist(d):
-        return [[e, fj(p)] for e, p in d.items()]
+        return [[dS(e), fj(p)] for e, p in d.items()]
     return {
         "init": attempt(lambda: dist(o.initial_state_dist())),
-        "actions": attempt(lambda: [list(o.actions(s)) for s in range(n)]),
-        "trans": attempt(lambda: [[dist(o.next_state_dist(s, a)) for a in range(nA)] for s in range(n)]),
-        "rew": attempt(lambda: [[[fj(o.reward(s, a, ns)) for ns in range(n)] for a in range(nA)] for s in range(n)]),
-        "abs": attempt(lambda: [bool(o.is_absorbing(s)) for s in range(n)]),
+        "actions": attempt(lambda: [[dA(a) for a in o.actions(S(s))] for s in range(n)]),
+        "trans": attempt(lambda: [[dist(o.next_state_dist(S(s), A(a))) for a in range(nA)] for s in range(n)]),
+        "rew": attempt(lambda: [[[fj(o.reward(S(s), A(a), S(ns))) for ns in range(n)] for a in range(nA)] for s in range(n)]),
+        "abs": attempt(lambda: [bool(o.is_absorbing(S(s))) for s in range(n)]),
         "discount": attempt(lambda: fj(o.discount_rate)),
-        "state_list": attempt(lambda: [int(x) for x in o.state_list]),
-        "action_list": attempt(lambda: [int(x) for x in o.action_list]),
+        "discount_type": attempt(lambda: type(o.discount_rate).__name__),
+        "state_list": attempt(lambda: [dS(x) for x in o.state_list]),
+        "action_list": attempt(lambda: [dA(x) for x in o.action_list]),
         "inst_keys": sorted(k for k in o.__dict__ if not k.startswith("_cached")),
     }
 
@@ -132,8 +196,10 @@ def ov_funcs(alt, keys):
     F = table_funcs(alt)
     kw = {}
     for k in keys:
-        if k in ("state_list", "action_list"):
-            kw[k] = tuple(alt[k])
+        if k == "state_list":
+            kw[k] = tuple(LAB.S(s) for s in alt[k])
+        elif k == "action_list":
+            kw[k] = tuple(LAB.A(a) for a in alt[k])
         else:
             kw[k] = F[k]
     return kw
@@ -158,36 +224,61 @@ def case_augment(case):
     return out
 
 
-def case_subtask(case):
+def subgoal_option(base, d, planner=None):
     from msdm.core.semimdp.option import PlanToSubgoalOption
+    kw = {}
+    if d["maxr"] is not None:
+        kw["max_nonterminal_pseudoreward"] = fl(d["maxr"])
+    if d.get("name") is not None:
+        kw["name"] = d["name"]
+    return PlanToSubgoalOption(mdp=base, initial_states=[LAB.S(s) for s in d["initial_states"]],
+                               subgoals=[LAB.S(s) for s in d["subgoals"]], planner=planner,
+                               include_mdp_absorbing_states=d["include"], **kw)
+
+
+def case_subtask(case):
     base = make_base(case["base"])
     T = case["base"]["tables"]
     n, nA = T["n"], T["nA"]
-    kw = {}
-    if case["maxr"] is not None:
-        kw["max_nonterminal_pseudoreward"] = fl(case["maxr"])
-    opt = PlanToSubgoalOption(mdp=base, initial_states=list(case["initial_states"]), subgoals=list(case["subgoals"]),
-                              planner=None, include_mdp_absorbing_states=case["include"], **kw)
+    planner = None
+    if case.get("plan"):
+        from msdm.algorithms.valueiteration import ValueIteration
+        planner = ValueIteration(max_iterations=30)
+    opt = subgoal_option(base, case, planner)
     try:
         st = opt.sub_task
     except BaseException as e:
         if isinstance(e, (KeyboardInterrupt, SystemExit)):
             raise
         return {"base": dump(base, n, nA), "sub": {"raised": type(e).__name__}}
-    return {"base": dump(base, n, nA), "sub": dump(st, n, nA),
-            "is_initial": [bool(opt.is_initial(s)) for s in range(n)],
-            "is_terminal": [bool(opt.is_terminal(s)) for s in range(n)]}
+    out = {"base": dump(base, n, nA), "sub": dump(st, n, nA),
+           "is_initial": [bool(opt.is_initial(LAB.S(s))) for s in range(n)],
+           "is_terminal": [bool(opt.is_terminal(LAB.S(s))) for s in range(n)],
+           "hashable": attempt(lambda: isinstance(hash(opt), int))}
+    if case.get("plan"):
+        # planning_result / policy of the option itself (policy is cached on the option: ask twice)
+        def opt_plan():
+            r = opt.planning_result
+            p1, p2 = opt.policy, opt.policy
+            sl, al = list(st.state_list), list(st.action_list)
+            return {"V": [fj(r.state_value[s]) for s in sl], "pi": [[fj(p1[s][a]) for a in al] for s in sl],
+                    "iterations": int(r.iterations), "policy_cached": p1 is p2}
+        out["plan"] = attempt(opt_plan)
+        ref = attempt(lambda: plan_summary(fresh_equivalent(st, n, nA)))
+        if isinstance(ref, dict) and "error" not in ref:
+            ref["policy_cached"] = True
+        out["plan_fresh_equivalent"] = ref
+    return out
 
 
 def views(o):
-    import numpy as np
     return {
         "tf": attempt(lambda: [[[fj(x) for x in r] for r in row] for row in o.transition_matrix.tolist()]),
         "rf": attempt(lambda: [[[fj(x) for x in r] for r in row] for row in o.reward_matrix.tolist()]),
         "am": attempt(lambda: [[bool(x) for x in row] for row in o.action_matrix.tolist()]),
         "absvec": attempt(lambda: [bool(x) for x in o.absorbing_state_vec.tolist()]),
         "s0": attempt(lambda: [fj(x) for x in o.initial_state_vec.tolist()]),
-        "reach": attempt(lambda: sorted(int(x) for x in o.reachable_states())),
+        "reach": attempt(lambda: sorted(LAB.dS(x) for x in o.reachable_states())),
     }
 
 
@@ -195,11 +286,12 @@ def fresh_equivalent(o, n, nA):
     """a brand-new tabular MDP with the functional behaviour, lists and discount of o"""
     from msdm.core.mdp import TabularMarkovDecisionProcess
     from msdm.core.distributions import DictDistribution
+    S, A = LAB.S, LAB.A
     init = DictDistribution(dict(o.initial_state_dist().items()))
-    acts = [list(o.actions(s)) for s in range(n)]
-    trans = {(s, a): DictDistribution(dict(o.next_state_dist(s, a).items())) for s in range(n) for a in range(nA)}
-    rew = {(s, a, ns): o.reward(s, a, ns) for s in range(n) for a in range(nA) for ns in range(n)}
-    absb = [bool(o.is_absorbing(s)) for s in range(n)]
+    acts = {S(s): list(o.actions(S(s))) for s in range(n)}
+    trans = {(S(s), A(a)): DictDistribution(dict(o.next_state_dist(S(s), A(a)).items())) for s in range(n) for a in range(nA)}
+    rew = {(S(s), A(a), S(ns)): o.reward(S(s), A(a), S(ns)) for s in range(n) for a in range(nA) for ns in range(n)}
+    absb = {S(s): bool(o.is_absorbing(S(s))) for s in range(n)}
 
     class Ref(TabularMarkovDecisionProcess):
         discount_rate = o.discount_rate
@@ -231,8 +323,9 @@ def derived_report(d, n, nA):
 
 
 def case_used(case):
-    """multi-step scenario: the base object is USED first, then derived MDPs are built from it"""
-    from msdm.core.semimdp.option import augment, PlanToSubgoalOption
+    """multi-step scenario: the base object is USED first, then derived MDPs are built from it
+    (also derived from derived ones)"""
+    from msdm.core.semimdp.option import augment
     base = make_base(case["base"])          # spec has touch = True
     T = case["base"]["tables"]
     n, nA = T["n"], T["nA"]
@@ -241,12 +334,12 @@ def case_used(case):
         try:
             if d["how"] == "augment":
                 o = augment(base, **ov_funcs(case["alt"], d["keys"]))
+            elif d["how"] == "augment2":
+                o1 = augment(base, **ov_funcs(case["alt"], d["keys1"]))
+                touch_base(o1, True)                      # the intermediate MDP is used as well
+                o = augment(o1, **ov_funcs(case["alt"], d["keys"]))
             else:
-                kw = {}
-                if d["maxr"] is not None:
-                    kw["max_nonterminal_pseudoreward"] = fl(d["maxr"])
-                o = PlanToSubgoalOption(mdp=base, initial_states=list(d["initial_states"]), subgoals=list(d["subgoals"]),
-                                        planner=None, include_mdp_absorbing_states=d["include"], **kw).sub_task
+                o = subgoal_option(base, d).sub_task
             out["derived"].append(derived_report(o, n, nA))
         except BaseException as e:
             if isinstance(e, (KeyboardInterrupt, SystemExit)):
@@ -256,11 +349,12 @@ def case_used(case):
 
 
 # ---------------------------------------------------------------------------
-def make_option(ospec, log):
+def make_option(ospec, log, dist_as="dict"):
     from msdm.core.semimdp.option import Option
     from msdm.core.mdp.policy import FunctionalPolicy
-    from msdm.core.distributions import DictDistribution
-    pol = [DictDistribution({a: fl(p) for a, p in row}) for row in ospec["policy"]]
+    pol = {LAB.S(s): mk_dist([(LAB.A(a), fl(p)) for a, p in row], dist_as) for s, row in enumerate(ospec["policy"])}
+    initial = {LAB.S(s): bool(x) for s, x in enumerate(ospec["initial"])}
+    terminal = {LAB.S(s): bool(x) for s, x in enumerate(ospec["terminal"])}
 
     class RecPolicy(FunctionalPolicy):
         def run_on(self, *a, **k):
@@ -274,31 +368,32 @@ def make_option(ospec, log):
             self.name = "opt"
             self.max_steps = int(ospec["max_steps"])
         def is_initial(self, s):
-            return bool(ospec["initial"][s])
+            return initial[s]
         def is_terminal(self, s):
-            return bool(ospec["terminal"][s])
+            return terminal[s]
     return SimpleOption()
 
 
 def sim_json(res):
     steps = list(res.steps)
     full, last = steps[:-1], steps[-1]
-    return {"states": [st["state"] for st in full], "actions": [st["action"] for st in full],
-            "next": [st["next_state"] for st in full], "rewards": [fj(st["reward"]) for st in full],
+    return {"states": [LAB.dS(st["state"]) for st in full], "actions": [LAB.dA(st["action"]) for st in full],
+            "next": [LAB.dS(st["next_state"]) for st in full], "rewards": [fj(st["reward"]) for st in full],
             "timesteps": [st["timestep"] for st in full],
-            "final": last["state"], "final_keys": sorted(last.keys()), "len": len(res)}
+            "final": LAB.dS(last["state"]), "final_keys": sorted(last.keys()), "len": len(res)}
 
 
 def case_run(case):
     base = make_base(case["base"])
     out = {"runs": []}
-    # natural length under a generous limit
+    # ONE option object for all runs of the case (its step limit is changed between runs)
     log = []
     o = dict(case["option"]); o["max_steps"] = case["natural_cap"]
-    opt = make_option(o, log)
+    opt = make_option(o, log, case["base"].get("dist_as", "dict"))
+    s0 = LAB.S(case["s0"])
     nat = None
     try:
-        r = opt.run_on(base, case["s0"], rng=random.Random(case["seed"]))
+        r = opt.run_on(base, s0, rng=random.Random(case["seed"]))
         nat = len(r) - 1
     except BaseException as e:
         if isinstance(e, (KeyboardInterrupt, SystemExit)):
@@ -308,12 +403,11 @@ def case_run(case):
     if nat is not None:
         limits += [nat + d for d in case["ms_rel"] if nat + d >= 0]
     for ms in limits:
-        log = []
-        o = dict(case["option"]); o["max_steps"] = ms
-        opt = make_option(o, log)
+        del log[:]
+        opt.max_steps = ms
         rec = {"max_steps": ms, "raised": None}
         try:
-            r = opt.run_on(base, case["s0"], rng=random.Random(case["seed"]))
+            r = opt.run_on(base, s0, rng=random.Random(case["seed"]))
             rec["returned"] = sim_json(r)
         except BaseException as e:
             if isinstance(e, (KeyboardInterrupt, SystemExit)):
@@ -328,7 +422,7 @@ def case_run(case):
 # ---------------------------------------------------------------------------
 def okey_json(k):
     ns, t, r = k
-    return [ns, t, fj(r)]
+    return [LAB.dS(ns), t, fj(r)]
 
 
 def case_smdp(case):
@@ -337,23 +431,24 @@ def case_smdp(case):
     base = make_base(case["base"])
     random.seed(case["global_seed"])
     log = []
-    opts = [make_option(o, log) for o in case["options"]]
+    opts = [make_option(o, log, case["base"].get("dist_as", "dict")) for o in case["options"]]
     smdp = SemiMarkovDecisionProcess(mdp=base, options=opts, n_option_simulations=case["n"],
                                      include_mdp_actions=case["include"], seed=case["seed"])
-    s = case["s"]
 
     def enc_action(a):
         if isinstance(a, Option):
             return ["opt", [i for i, o in enumerate(opts) if o is a][0]]
-        return ["prim", int(a)]
-    out = {"actions": attempt(lambda: [enc_action(a) for a in smdp.actions(s)]), "queries": []}
-    for kind, idx in case["queries"]:
-        a = opts[idx] if kind == "opt" else idx
+        return ["prim", LAB.dA(a)]
+    out = {"actions": attempt(lambda: [enc_action(a) for a in smdp.actions(LAB.S(case["s"]))]), "queries": []}
+    seeds_seen = []
+    for kind, idx, sid in case["queries"]:
+        s = LAB.S(sid)
+        a = opts[idx] if kind == "opt" else LAB.A(idx)
         q = {}
         for name, fn, enc in (
             ("nstr", smdp.next_state_transit_time_reward_dist, lambda d: [[okey_json(k), fj(p)] for k, p in d.items()]),
-            ("nst", smdp.next_state_transit_time_dist, lambda d: [[list(k), fj(p)] for k, p in d.items()]),
-            ("ns", smdp.next_state_dist, lambda d: [[k, fj(p)] for k, p in d.items()]),
+            ("nst", smdp.next_state_transit_time_dist, lambda d: [[[LAB.dS(k[0]), k[1]], fj(p)] for k, p in d.items()]),
+            ("ns", smdp.next_state_dist, lambda d: [[LAB.dS(k), fj(p)] for k, p in d.items()]),
             ("ecr", smdp.expected_cumulative_reward, lambda x: fj(x)),
         ):
             del log[:]
@@ -366,15 +461,21 @@ def case_smdp(case):
                 rec["raised"] = type(e).__name__
             rec["sims"] = [sim_json(x) for x in log]
             q[name] = rec
+            seeds_seen.append(smdp.seed)
         out["queries"].append(q)
     out["seed_after"] = smdp.seed
+    out["seed_constant_after_first_option_query"] = len({x for x in seeds_seen if x is not None}) <= 1
     out["base_discount"] = fj(base.discount_rate)
     return out
 
 
 def one(case, pl):
-    return {"augment": case_augment, "subtask": case_subtask, "run": case_run, "smdp": case_smdp,
-            "used": case_used}[case["kind"]](case)
+    out = {"augment": case_augment, "subtask": case_subtask, "run": case_run, "smdp": case_smdp,
+           "used": case_used}[case["kind"]](case)
+    base, spec = LAST_BASE
+    if spec["tabular"]:
+        out["base_lists"] = attempt(lambda: [[LAB.dS(x) for x in base.state_list], [LAB.dA(x) for x in base.action_list]])
+    return out
 
 
 if __name__ == "__main__":
